@@ -1,0 +1,11 @@
+//go:build verif
+
+package http
+
+// Contract for the file upload endpoint (property C17).
+// Comment-only file: it is compiled only with -tags verif and contains no code.
+
+//@ func (*gitUploadFileHandler).ServeHTTP
+//@   props C17
+//@   requires r != nil && r.Context() != nil
+//@   ensures [forbidden] !auth.hasUser(r.Context()) ==> cache.repoWrites == old(cache.repoWrites) && http.lastHTTPStatus != 200 && (old(http.lastHTTPStatus) == 0 ==> http.lastHTTPStatus == 400 || http.lastHTTPStatus == 403)
